@@ -109,7 +109,7 @@ def check(case):
 
 
 def _strategy(tier):
-    return st.tuples(sources.any_text(tier, weights=(2, 3, 3, 2, 5, 2, 2)), O.valid_options()).map(lambda t: {'text': t[0], 'opts': t[1]})
+    return st.tuples(sources.any_text(tier, weights=(2, 3, 3, 2, 5, 2, 2, 2)), O.valid_options()).map(lambda t: {'text': t[0], 'opts': t[1]})
 
 
 class Recording(io.StringIO):
